@@ -2,7 +2,11 @@
 PID = "C14"
 RULE = ("N and 2N sequential or overlapping logical connections (application or target closing first) through an in-process pair, goroutines and "
         "file descriptors counted at quiescent points before, after N and after 2N; then the physical session is ended by a carrier cut or by "
-        "a garbage frame and the process's CPU time over an idle second is measured; distinct_nontrivial = distinct (carrier, N, mode)")
+        "a garbage frame and the process's CPU time over an idle second is measured; handler scripts (c02h): the real per-session handler, alone "
+        "and behind the real client, over an in-memory carrier - connections ending in every way and combination, the session ending by cut, garbage "
+        "or orderly close with connections in every state (piping, dial pending, silent, refused and left open), goroutines counted per kind at "
+        "quiescent points, every stream, local connection and target connection checked for having been closed; "
+        "distinct_nontrivial = distinct (carrier, N, mode) resp. distinct scripts")
 EXPLANATION_DNS = (" DNS tunnel connection (Queue/Close.v, shared with C17): in every reachable state a closed end has no reader parked on it - "
                    "whichever operation closed it released the reader in the same step; the shapes without in.Close() in closeConnection, in the "
                    "sweep and in the client's Close are refuted for every continuation. The same for a writer parked in Write (waiting for the "
@@ -10,12 +14,28 @@ EXPLANATION_DNS = (" DNS tunnel connection (Queue/Close.v, shared with C17): in 
                    "repair is refuted for every continuation. Run against the real objects (c17q, c17p).")
 EXPLANATION = ("Props/C14.v: every PipeData execution ends with all three goroutines returned when the result channels have room for one value "
                "(capacities read from the source; the unbuffered variant is refuted by witness), and the accept loop exits on a dead session "
-               "unless errors are answered with continue (read from the source). The scenarios measure growth per connection and idle CPU.") + EXPLANATION_DNS
+               "unless errors are answered with continue (read from the source). The scenarios measure growth per connection and idle CPU. "
+               "Handler model (Mux/Handler.v, shared with C02; every stream, target connection, goroutine and report channel explicit, arbitrary schedule "
+               "and environment). Proved for every event list: a logical connection that is over (either side hung up or failed, session death, failed "
+               "dial, refusal), with no dial in flight and none of its goroutines able to step, has its handler returned, no copy loop left (none blocked "
+               "on a report channel), its stream closed and its target connection closed - or, as long as muxHandler does not close it itself, held only "
+               "when the target hung up first (c14_handler_connection_reclaimed, c14_handler_target_left_only_after_target_eof); after the session has "
+               "died in any manner with any number of connections in any states, at quiescence the accept loop has exited and the footprint is zero "
+               "(c14_handler_session_reclaimed); a terminal accept error ends the loop with its next step and an ended loop never steps again "
+               "(c14_handler_accept_exits, c14_handler_no_busy_loop); on the client, listener.HandleConnection leaves both ends closed and no goroutine "
+               "(c14_client_reclaimed). Refuted with computed witnesses: the upstream side closed only on io.EOF, unbuffered report channels, continue on "
+               "a terminal error (for every n), a refused stream left open (client and server view), the wrong side closed (direct forward), the leaked "
+               "slot. Switches read from the source by role (Gen/HandlerShape.v); compared token for token with the real code (c02h raw / cli).") + EXPLANATION_DNS
 TRUSTED = ["runtime.NumGoroutine / getrusage / /proc/self/fd as measurements", "kernel socket states (TIME_WAIT) are not observed",
-           "DNS close model (Queue/Close.v): one reader and one writer per end, operations atomic; acknowledgements are events of the environment"]
+           "DNS close model (Queue/Close.v): one reader and one writer per end, operations atomic; acknowledgements are events of the environment",
+           "handler model: each statement group of the Go code is one atomic step; stream reads as smux v1.5.14 orders them (buffered data, peer's end-of-stream, "
+           "session error); a dial or a channel selection still in flight keeps its goroutine (hypotheses dial_settled / l_settled); the server's end of a target "
+           "connection whose target hung up first is not closed by the code (released by the runtime's finalizer): modelled as it is, tolerated by the oracle",
+           "goroutines of a case are counted from the goroutine profile by function name under a profiler label"]
 RUN_TIMEOUT = 3000
 
 from . import c17 as _c17
+from . import hcases as _h
 
 
 def cases(tier, rng):
@@ -67,6 +87,15 @@ def cases(tier, rng):
         c = _c17.q_case(_c17.gen_q(rng, 24), "random")
         c["tags"]["mode"] = "dns-close"
         cs.append(c)
+    # the real per-session handler (and the real client in front of it) over an in-memory carrier, driven by scripts of environment events and
+    # compared token for token with the handler model (Mux/Handler.v): connections ending in every way and in every combination, the session
+    # ending in every manner (cut, garbage, orderly) with connections in every state; goroutines (accept loop, handlers, copy loops, client
+    # handlers) counted from the stacks at quiescent points, every stream and target connection checked for having been closed
+    cs += _h.fixed_reclamation() + _h.fixed_cli_reclamation()
+    for i in range(150 if thorough else 12):
+        cs.append(_h.raw_case(_h.random_script(rng, 16 if thorough else 12, True), "random"))
+    for i in range(100 if thorough else 8):
+        cs.append(_h.cli_case(_h.random_cli_script(rng, 14 if thorough else 10, i % 2 == 0), "random"))
     for cn, sn, fates in ((4, 4, ["evclose"]), (4, 4, ["evexpire"]), (4, 4, ["ok #0102", "evclose"])) + (((2, 2, ["evexpire", "evforget"]),) if thorough else ()):
         line = "c17p %d %d %d %s 3" % (cn, sn, len(fates), " ".join(fates))
         cs.append({"line": line, "key": line, "tags": {"carrier": "dns-poll", "n": len(fates), "mode": "dns-close"}})
@@ -88,6 +117,8 @@ def project(impl, n):
 def oracle(case, impl):
     if case["line"].startswith("c17q ") or case["line"].startswith("c17p "):
         return _c17.oracle(case, impl)
+    if case["line"].startswith("c02h "):
+        return _h.oracle(case, impl, "reclamation")
     t = case["tags"]
     if t["mode"] == "server-away":
         p = impl.split()
@@ -139,12 +170,16 @@ def oracle(case, impl):
 
 
 def shrink(case):
+    if case["line"].startswith("c02h "):
+        return _h.shrink(case)
     return _c17.shrink(case)
 
 
 def agree(case, impl, model):
     if case["line"].startswith("c17q ") or case["line"].startswith("c17p "):
         return _c17.agree(case, impl, model)
+    if case["line"].startswith("c02h "):
+        return _h.agree(case, impl, model)
     pr = project(impl, case["tags"]["n"])
     m = model.split()
     if pr is None or len(m) < 6:
@@ -164,7 +199,13 @@ META = {
                   "session ends the loop; the defective variants (unbuffered channels, continue on error) are refuted by witnesses. Goroutine, "
                   "descriptor and CPU footprints are measured over N and 2N connections and after abrupt session ends. DNS tunnel connection: a "
                   "model of the close protocol (shared with C17) proves that a reader parked in Read and a writer parked in Write are released by "
-                  "whatever closes their end, for every operation sequence; it is run token for token against the real objects.",
+                  "whatever closes their end, for every operation sequence; it is run token for token against the real objects. "
+                  "A resource-explicit model of the per-session handler and of the piping of one logical connection (every stream, target connection, "
+                  "goroutine and report channel; arbitrary schedule and environment) proves for every event list that a finished connection leaves "
+                  "no goroutine, stream or target connection, that a dead session leaves nothing whatever the number and states of its connections, "
+                  "and that the accept loop ends on a terminal error and never steps again; the client-side mirror likewise; seven defect variants "
+                  "are refuted with computed witnesses. Its switches are read from the source by role and the extracted model is compared token for "
+                  "token with the real handler and client over scripted histories.",
     "level_note": "Measurements (goroutine counts, rusage) stand for 'footprint'; kernel socket states are not observed.",
     "technique": "Coq proofs by finite-state exploration of LTS models + footprint measurements at quiescent points",
 }
